@@ -582,9 +582,21 @@ class History:
             self.model[h["p"]][jid]["doc"] = {}
 
     def op_reset(self, op):
-        h = self.usable(op)
+        h = self.usable(op, allow_stale=True)
         if h is None:
             return
+        if h["stale"]:
+            # reset() "will initialize the job if it was not previously initialized": through a handle whose job
+            # was removed elsewhere it creates the job again, empty (and empties the handle's own document object)
+            gone = oracle.job_id(h["sp"]) not in self.model[h["p"]]
+            alone = sum(1 for g in self.live() if g["group"] == h["group"]) == 1
+            if not (h.get("stale_by_remove") and gone and alone and not h.get("lockbroken") and not h.get("broken")):
+                return
+            h["stale"] = False
+            h["stale_by_remove"] = False
+            self.groups += 1
+            h["group"] = self.groups
+            self.cl.add("stale_handle_resynced_by_reset")
         try:
             h["job"].reset()
         except Exception as e:
